@@ -231,6 +231,21 @@ mod v2 {
         }
     }
 
+    /// verif hook: a v2 port whose fan-out task runs with the given
+    /// `allow_duplicate_subscription` flag (the public constructor always uses `true`)
+    #[cfg(slawlor_ractor_verif)]
+    impl<TMsg> OutputPort<TMsg>
+    where
+        TMsg: OutputMessage,
+    {
+        #[allow(missing_docs)]
+        pub fn verif_with_duplicate_subscriptions(allow: bool) -> Self {
+            Self {
+                inner: inner::OutputPort::new(allow),
+            }
+        }
+    }
+
     mod inner {
 
         use super::OutputMessage;
